@@ -1,7 +1,7 @@
 PROPERTY = "C17"
 LEVEL = "proof"
 LEAN_MODULES = ["CifModel.Props.C17", "CifModel.Props.C17Map", "CifModel.Props.C17Store", "CifModel.Props.ReviewC17",
-                "CifModel.Props.C17Tree", "CifModel.Props.C17Iter"]
+                "CifModel.Props.C17Tree", "CifModel.Props.C17Iter", "CifModel.Props.C17Header"]
 REQUIRED = ["CifModel.C17_dup_ustrings_balanced", "CifModel.C17_clone_balanced", "CifModel.C17_insert_balanced",
             "CifModel.C17_fault_reached_iff", "CifModel.C17_set_element_balanced", "CifModel.C17_get_names_balanced",
             "CifModel.C17_cex_get_names_leak", "CifModel.C17_clone_shape", "CifModel.C17_balanced_nodup",
@@ -13,7 +13,8 @@ REQUIRED = ["CifModel.C17_dup_ustrings_balanced", "CifModel.C17_clone_balanced",
             "CifModel.C17_atomic_under_fault", "CifModel.C17_abs_unchanged", "CifModel.C17_close_fault_is_abort",
             "CifModel.C17_fault_modelled", "CifModel.C17_fault_path_independent",
             "CifModel.C17_clone_any_balanced", "CifModel.C17_deser_any_balanced", "CifModel.C17_free_any_balanced",
-            "CifModel.C17_clone_any_extends", "CifModel.C17_get_packets_balanced", "CifModel.C17_next_packet_balanced"]
+            "CifModel.C17_clone_any_extends", "CifModel.C17_get_packets_balanced", "CifModel.C17_next_packet_balanced",
+            "CifModel.C17_loop_header_balanced"]
 GEN = ["ErrCodes", "Schema", "Uthash"]
 FAMILIES = ["ladder", "oom", "storefault"]
 TRUSTED_BASE = [
